@@ -14,6 +14,8 @@ import (
 	"github.com/plgd-dev/go-coap/v3/message/noresponse"
 	"github.com/plgd-dev/go-coap/v3/message/pool"
 	"github.com/plgd-dev/go-coap/v3/net/responsewriter"
+	"github.com/plgd-dev/go-coap/v3/pkg/cache"
+	coapSync "github.com/plgd-dev/go-coap/v3/pkg/sync"
 	"github.com/plgd-dev/go-coap/v3/udp/client"
 	"github.com/plgd-dev/go-coap/v3/udp/coder"
 )
@@ -22,7 +24,7 @@ func init() { props["C05"] = runC05 }
 
 // one scripted event of a de-duplication history
 type c05Ev struct {
-	Kind    string // req | age | tick | drop | ping | send
+	Kind    string // req | age | tick | drop | ping | send | sweep
 	Typ     int
 	MID     int
 	Tok     []byte
@@ -42,6 +44,12 @@ type c05Ev struct {
 	UTyp int
 	UMID int
 	UTok []byte
+	// Kind = sweep: a housekeeping sweep (Conn.CheckExpirations) that is in flight while the requests Inner are
+	// received and completely processed. Pt says where the sweep stands at that moment: "x" it has just found a
+	// cached reply expired and has not removed it yet (yield point "Cache.CheckExpirations.expired"), "r" it has
+	// fetched an entry of the cache and has not looked at it yet (yield point "Map.Range.unlocked")
+	Pt    string
+	Inner []c05Ev
 }
 
 // useDesc: the descriptor field of the request use ("" = none)
@@ -100,6 +108,13 @@ func (e c05Ev) desc() string {
 		return fmt.Sprintf("ping:%d", e.MID)
 	case "send":
 		return fmt.Sprintf("send:%d:%x:%d:%s:%d:%d", e.Typ, e.Tok, e.RCode, dashOpts(e.ROpts), e.PSalt, e.PLen)
+	case "sweep":
+		// one token (the shrinker of bin/check drops whole space-separated events)
+		d := "sweep" + e.Pt
+		for _, in := range e.Inner {
+			d += "/" + in.desc()
+		}
+		return d
 	}
 	d := fmt.Sprintf("req:%d:%d:%x:%d:%s:%s:%d:%s:%d:%d", e.Typ, e.MID, e.Tok, e.Code, dashOpts(e.ReqOpts), e.Beh, e.RCode, dashOpts(e.ROpts), e.PSalt, e.PLen)
 	if e.Beh == "msg" {
@@ -112,6 +127,19 @@ func (e c05Ev) desc() string {
 }
 
 func parseC05Ev(s string) c05Ev {
+	if strings.HasPrefix(s, "sweep") {
+		parts := strings.Split(s, "/")
+		e := c05Ev{Kind: "sweep", Pt: strings.TrimPrefix(parts[0], "sweep")}
+		if e.Pt != "r" {
+			e.Pt = "x"
+		}
+		for _, p := range parts[1:] {
+			if in := parseC05Ev(p); in.Kind == "req" {
+				e.Inner = append(e.Inner, in)
+			}
+		}
+		return e
+	}
 	f := strings.Split(s, ":")
 	var e c05Ev
 	atoi := func(x string) int { var v int; fmt.Sscanf(x, "%d", &v); return v }
@@ -276,10 +304,35 @@ func runC05HistoryOn(evs []c05Ev, getMID int32, dtls bool) (string, bool) {
 		if e.Kind == "req" && e.Use == "rl" {
 			mc.avoidMID[e.UMID&0xffff] = true // the barrier requests stay away from the handlers' labels, too
 		}
+		for _, in := range e.Inner {
+			mc.avoidMID[in.MID] = true
+		}
 	}
 	var sb strings.Builder
 	fmt.Fprintf(&sb, "Hist %d [", own0)
 	okRun := true
+	// doReq: one request is received and processed completely; returns the arguments of its case event
+	doReq := func(e c05Ev) string {
+		ev := e
+		beh := c05Behave(ev)
+		mc.mu.Lock()
+		mc.behave = func(w *responsewriter.ResponseWriter[*client.Conn], r *pool.Message) {
+			if activeTracker != nil {
+				activeTracker.Hold(r)
+				defer activeTracker.Unhold(r)
+			}
+			beh(w, r)
+		}
+		mc.mu.Unlock()
+		d := encodeWire(e.Typ, e.Code, e.MID, e.Tok, e.ReqOpts, nil)
+		mc.inject(d)
+		if !mc.sync() {
+			okRun = false
+		}
+		log := mc.takeLog()
+		out := mc.takeOut()
+		return fmt.Sprintf("%d %d %s %d %s %s %s %s", e.Typ, e.MID, coqBytes(e.Tok), e.Code, coqOpts(e.ReqOpts), e.coqBeh(), coqBool(len(log) > 0), coqWireObs(out))
+	}
 	for i, e := range evs {
 		if activeTracker != nil && activeTracker.bad() {
 			break // C12: the lifecycle trace already contains a violation; the rest would only wait for watchdogs
@@ -361,25 +414,52 @@ func runC05HistoryOn(evs []c05Ev, getMID int32, dtls bool) (string, bool) {
 			fmt.Fprintf(&sb, "HSend %d %s %d %s (gen_body %d %d%%nat) %s %s", e.Typ, coqBytes(e.Tok), e.RCode, coqOpts(e.ROpts), e.PSalt, e.PLen,
 				coqBool(len(mc.takeLog()) > 0), coqWireObs(out))
 		case "req":
-			ev := e
-			beh := c05Behave(ev)
-			mc.mu.Lock()
-			mc.behave = func(w *responsewriter.ResponseWriter[*client.Conn], r *pool.Message) {
-				if activeTracker != nil {
-					activeTracker.Hold(r)
-					defer activeTracker.Unhold(r)
+			fmt.Fprintf(&sb, "%s %s", e.coqReqHead(), doReq(e))
+		case "sweep":
+			// The inner requests arrive while a sweep is in flight. Forced with the yield points of the sweep (build
+			// tag verif; no lock is held there): the hook runs on the sweeping goroutine (this one), hands the requests
+			// to the connection and waits until each one has been processed completely (reply stored and written).
+			// Reported as "inner requests; Tick", which the execution must be equivalent to (Dedup/Sweep.v,
+			// sweep_unobservable: a sweep only ever removes replies that a request treats as absent).
+			var inner []string
+			fired := false
+			fire := func() {
+				fired = true
+				for _, in := range e.Inner {
+					in.Use = ""
+					inner = append(inner, "HR "+doReq(in))
 				}
-				beh(w, r)
 			}
-			mc.mu.Unlock()
-			d := encodeWire(e.Typ, e.Code, e.MID, e.Tok, e.ReqOpts, nil)
-			mc.inject(d)
+			if e.Pt == "r" {
+				coapSync.VerifYieldHook = func(point string) {
+					if point == "Map.Range.unlocked" && !fired {
+						fire()
+					}
+				}
+			} else {
+				cache.VerifYieldHook = func(point string) {
+					if point == "Cache.CheckExpirations.expired" && !fired {
+						fire()
+					}
+				}
+			}
+			mc.cc.CheckExpirations(time.Now())
+			cache.VerifYieldHook = nil
+			coapSync.VerifYieldHook = nil
 			if !mc.sync() {
 				okRun = false
 			}
-			log := mc.takeLog()
-			out := mc.takeOut()
-			fmt.Fprintf(&sb, "%s %d %d %s %d %s %s %s %s", e.coqReqHead(), e.Typ, e.MID, coqBytes(e.Tok), e.Code, coqOpts(e.ReqOpts), e.coqBeh(), coqBool(len(log) > 0), coqWireObs(out))
+			tickOut := mc.takeOut()
+			if !fired {
+				// the sweep never reached the point (nothing expired / empty cache): the requests come after it
+				fmt.Fprintf(&sb, "HSweep [] %s", coqWireObs(tickOut))
+				for _, in := range e.Inner {
+					in.Use = ""
+					fmt.Fprintf(&sb, "; HReq %s", doReq(in))
+				}
+			} else {
+				fmt.Fprintf(&sb, "HSweep [%s] %s", strings.Join(inner, "; "), coqWireObs(tickOut))
+			}
 		}
 		if perEventC05 != nil {
 			perEventC05(i, e)
@@ -757,11 +837,136 @@ func c05DecorateUse(rng *Rng, evs []c05Ev, getMID int32) {
 	}
 }
 
+// c05MethodCodes: request method codes beyond GET..DELETE: FETCH, PATCH, iPATCH (RFC 8132) and other codes of
+// class 0 (0.01-0.31 are requests, RFC 7252 section 5.2 / 12.1.1), mixed with the classic four
+var c05MethodCodes = []int{5, 6, 7, 5, 6, 7, 8, 15, 31, 1, 2, 3, 4}
+
+// c05DecorateMethod gives every message ID of a history a method code from c05MethodCodes (the copies of a request
+// carry the method of the first one most of the time: they are retransmissions).
+func c05DecorateMethod(rng *Rng, evs []c05Ev) {
+	byMID := map[int]int{}
+	for i := range evs {
+		e := &evs[i]
+		if e.Kind != "req" {
+			continue
+		}
+		if c, ok := byMID[e.MID]; ok && rng.Chance(85) {
+			e.Code = c
+			continue
+		}
+		e.Code = c05MethodCodes[rng.Intn(len(c05MethodCodes))]
+		byMID[e.MID] = e.Code
+	}
+}
+
+// c05MkReq draws one request (any method code of class 0; the handler behaviours of the extended event set)
+func c05MkReq(rng *Rng, typ, mid int) c05Ev {
+	respOptsPool := []message.Options{
+		nil,
+		{{ID: message.ETag, Value: []byte{1, 2, 3}}},
+		{{ID: message.MaxAge, Value: []byte{60}}},
+		{{ID: message.ContentFormat, Value: []byte{50}}},
+	}
+	respCodes := []int{69, 68, 65, 132, 160, 95, 157}
+	ev := c05Ev{Kind: "req", Typ: typ, MID: mid, Code: c05MethodCodes[rng.Intn(len(c05MethodCodes))]}
+	ev.Tok = make([]byte, []int{0, 1, 2, 4, 8}[rng.Intn(5)])
+	for i := range ev.Tok {
+		ev.Tok[i] = byte(rng.U64())
+	}
+	ev.RCode = respCodes[rng.Intn(len(respCodes))]
+	ev.ROpts = respOptsPool[rng.Intn(len(respOptsPool))]
+	ev.PLen = []int{0, 0, 1, 5, 13, 40}[rng.Intn(6)]
+	ev.PSalt = rng.Intn(250)
+	switch r := rng.Intn(100); {
+	case r < 60:
+		ev.Beh = "resp"
+	case r < 75:
+		ev.Beh = "msg"
+		ev.MTok = []byte{byte(rng.U64()), 0x5e}
+	case r < 82:
+		ev.Beh, ev.RCode, ev.ROpts, ev.PLen, ev.PSalt = "rst", 0, nil, 0, 0
+	case r < 88:
+		ev.Beh, ev.RCode = "resp", 0
+	default:
+		ev.Beh, ev.RCode, ev.ROpts, ev.PLen, ev.PSalt = "none", 0, nil, 0, 0
+	}
+	return ev
+}
+
+// genC05Sweep: message IDs that are used again after the lifetime while the replies of their first use are still in
+// the cache, with a sweep in flight at that very moment. 1-3 first uses (with copies), the lifetime elapses (nothing
+// sweeps), optionally requests with other IDs (replies that are not expired when the sweep runs), then the sweep
+// during which new requests with (all / some of) the old IDs are processed, then copies of the new requests: at once,
+// after 246 s (still inside the lifetime of the second use) and after 248 s (fresh again).
+func genC05Sweep(rng *Rng) ([]c05Ev, int32) {
+	getMID := int32([]int{0x1000, 0, 0x7fff, 0xffff, 0x8123}[rng.Intn(5)])
+	own := int(uint16(uint32(getMID) - 0x7fff))
+	midPool := []int{0, 1, 2, 65535, 4660, (own + 1) & 0xffff, (own + 2) & 0xffff, own, (own + 0x3fff) & 0xffff, (own + 0x4001) & 0xffff, 30000, 30001}
+	for i := len(midPool) - 1; i > 0; i-- {
+		j := rng.Intn(i + 1)
+		midPool[i], midPool[j] = midPool[j], midPool[i]
+	}
+	// (the pool may contain an ID twice when two of the derived values coincide: keep the first of each)
+	uniq := midPool[:0]
+	seenMID := map[int]bool{}
+	for _, m := range midPool {
+		if !seenMID[m] {
+			seenMID[m] = true
+			uniq = append(uniq, m)
+		}
+	}
+	midPool = uniq
+	nOld := 1 + rng.Intn(3)
+	old := midPool[:nOld]
+	var evs []c05Ev
+	for _, m := range old {
+		r := c05MkReq(rng, rng.Intn(2), m)
+		evs = append(evs, r)
+		if rng.Chance(40) {
+			evs = append(evs, r)
+		}
+	}
+	evs = append(evs, c05Ev{Kind: "age", Ms: []int{247500, 248000, 300000, 500000}[rng.Intn(4)]})
+	nValid := rng.Intn(3)
+	for i := 0; i < nValid; i++ { // replies that are still valid when the sweep runs
+		evs = append(evs, c05MkReq(rng, rng.Intn(2), midPool[nOld+i]))
+	}
+	sw := c05Ev{Kind: "sweep", Pt: "x"}
+	if rng.Chance(25) {
+		sw.Pt = "r"
+	}
+	var again []c05Ev
+	for _, m := range old {
+		if nOld > 1 && rng.Chance(20) {
+			continue // this ID is not used again
+		}
+		r := c05MkReq(rng, rng.Intn(2), m)
+		again = append(again, r)
+		sw.Inner = append(sw.Inner, r)
+		if rng.Chance(25) {
+			sw.Inner = append(sw.Inner, r) // a copy that is still inside the sweep's window
+		}
+	}
+	evs = append(evs, sw)
+	evs = append(evs, again...)
+	if rng.Chance(50) {
+		evs = append(evs, c05Ev{Kind: "tick"})
+		evs = append(evs, again...)
+	}
+	evs = append(evs, c05Ev{Kind: "age", Ms: 246000})
+	evs = append(evs, again...)
+	if rng.Chance(50) {
+		evs = append(evs, c05Ev{Kind: "age", Ms: 2000}, c05Ev{Kind: "tick"})
+		evs = append(evs, again...)
+	}
+	return evs, getMID
+}
+
 func runC05(a runArgs) error {
 	e := NewEmitter("C05", "Dedup.Run")
 	e.Preamble = "From GoCoap Require Import Base.Bytes Dedup.Model Dedup.Spec."
 	e.ShardSize = 120
-	e.Rule = "histories of 3-12 events on a fresh udp/client.Conn over an in-memory session and (a sample; ten times as many in the thorough tier) over a real dtls/server.Session on a scripted net.Conn: CON/NON requests (message IDs from a small pool incl. 0, 65535 and IDs near the connection's own counter; random tokens; optional No-Response option) with handler behaviours none / response(code incl. Empty, options, payload) / replaced response message (w.SetMessage, own token) / Reset, request-monitor drops, pings, messages sent by the application (separate responses, CON acknowledged by the harness / NON), interleaved with Age (virtual time shifts of the response cache around the 247 s lifetime, never within 300 ms of a boundary) and housekeeping ticks; plus concurrent families (one goroutine per received message): 2-4 copies of one request, and 2-3 copies each of two or three confirmable requests with different message IDs, first handlers held until all other copies wait on their locks. Distinct = distinct history; non-trivial = contains a duplicate (same message ID twice)."
+	e.Rule = "histories of 3-12 events on a fresh udp/client.Conn over an in-memory session and (a sample; ten times as many in the thorough tier) over a real dtls/server.Session on a scripted net.Conn: CON/NON requests (message IDs from a small pool incl. 0, 65535 and IDs near the connection's own counter; random tokens; optional No-Response option) with handler behaviours none / response(code incl. Empty, options, payload) / replaced response message (w.SetMessage, own token) / Reset, request-monitor drops, pings, messages sent by the application (separate responses, CON acknowledged by the harness / NON), interleaved with Age (virtual time shifts of the response cache around the 247 s lifetime, never within 300 ms of a boundary) and housekeeping ticks; plus concurrent families (one goroutine per received message): 2-4 copies of one request, and 2-3 copies each of two or three confirmable requests with different message IDs, first handlers held until all other copies wait on their locks; request methods beyond GET..DELETE (FETCH, PATCH, iPATCH and other codes 0.08-0.31) in histories, concurrent copies and witnesses; message IDs used again after the lifetime while a housekeeping sweep stands between examining (or fetching) the expired reply and removing it (forced at the yield points of the sweep), followed by copies of the new requests at 0 s / 246 s / 248 s. Distinct = distinct history; non-trivial = contains a duplicate (same message ID twice)."
 	rng := NewRng(a.seed)
 
 	emitOn := func(evs []c05Ev, getMID int32, dtls bool) {
@@ -779,13 +984,25 @@ func runC05(a runArgs) error {
 		seen := map[int]bool{}
 		buckets := []string{fmt.Sprintf("len%02d", len(evs))}
 		kinds := map[string]bool{}
+		var flat []c05Ev
 		for _, ev := range evs {
+			if ev.Kind == "sweep" {
+				kinds["ev=sweep-"+ev.Pt] = true
+				flat = append(flat, ev.Inner...)
+				continue
+			}
+			flat = append(flat, ev)
+		}
+		for _, ev := range flat {
 			if ev.Kind == "req" {
 				if seen[ev.MID] {
 					dup = true
 				}
 				seen[ev.MID] = true
 				kinds["beh="+ev.Beh] = true
+				if ev.Code > 4 {
+					kinds["method>0.04"] = true
+				}
 				if ev.Use != "" {
 					kinds["use="+ev.Use] = true
 				}
@@ -1009,6 +1226,67 @@ func runC05(a runArgs) error {
 					r.Use = use
 				}
 				emit([]c05Ev{r, r, {Kind: "age", Ms: 246000}, r, {Kind: "age", Ms: 2000}, r, r}, 0x1000)
+			}
+		}
+	}
+	// ---- request methods beyond GET..DELETE (drawn after everything else: the streams above are unchanged) ----
+	// FETCH / PATCH / iPATCH (RFC 8132) and the other method codes of class 0 are requests like the classic four
+	nmeth, nmethConc, nmethDtls := 120, 12, 12
+	if a.tier == "thorough" {
+		nmeth, nmethConc, nmethDtls = 1000, 100, 100
+	}
+	for c := 0; c < nmeth; c++ {
+		evs, getMID := genC05HistoryX(rng, a.tier, c%2 == 1)
+		c05DecorateMethod(rng, evs)
+		emit(evs, getMID)
+	}
+	for c := 0; c < nmethConc; c++ {
+		ev, getMID := firstReq(c%2 == 1, false, nil)
+		ev.Code = c05MethodCodes[c%9]
+		emitConc([]c05Ev{ev}, []int{2 + rng.Intn(3)}, getMID, c%6 == 5)
+	}
+	for c := 0; c < nmethDtls; c++ {
+		evs, getMID := genC05HistoryX(rng, "quick", c%2 == 1)
+		c05DecorateMethod(rng, evs)
+		emitOn(evs, getMID, true)
+	}
+	for _, code := range []int{5, 6, 7, 31} {
+		for _, typ := range []int{0, 1} {
+			for _, beh := range []string{"none", "resp", "msg", "rst"} {
+				r := c05Ev{Kind: "req", Typ: typ, MID: 0x4100 + code, Tok: []byte{0xc0, byte(code)}, Code: code, Beh: beh, RCode: 69, PLen: 5, PSalt: 7, MTok: []byte{0xcc}}
+				if beh == "rst" || beh == "none" {
+					r.RCode, r.PLen, r.PSalt = 0, 0, 0
+				}
+				emit([]c05Ev{r, r, {Kind: "age", Ms: 246000}, r, {Kind: "age", Ms: 2000}, r, r}, 0x1000)
+			}
+		}
+	}
+	// ---- a message ID used again after the lifetime while a sweep is looking at the expired reply of its first use ----
+	nsweep, nsweepDtls := 100, 10
+	if a.tier == "thorough" {
+		nsweep, nsweepDtls = 800, 80
+	}
+	for c := 0; c < nsweep; c++ {
+		evs, getMID := genC05Sweep(rng)
+		emit(evs, getMID)
+	}
+	for c := 0; c < nsweepDtls; c++ {
+		evs, getMID := genC05Sweep(rng)
+		emitOn(evs, getMID, true)
+	}
+	for _, typ := range []int{0, 1} {
+		for _, beh := range []string{"none", "resp", "msg", "rst"} {
+			if typ == 1 && beh == "none" {
+				continue // no reply: nothing is remembered
+			}
+			r1 := c05Ev{Kind: "req", Typ: typ, MID: 0x2345, Tok: []byte{1, 2, 3}, Code: 1, Beh: beh, RCode: 69, PLen: 5, PSalt: 1, MTok: []byte{0xcc}}
+			r2 := c05Ev{Kind: "req", Typ: typ, MID: 0x2345, Tok: []byte{4, 5}, Code: 2, Beh: beh, RCode: 68, PLen: 6, PSalt: 2, MTok: []byte{0xcd}}
+			if beh == "rst" || beh == "none" {
+				r1.RCode, r1.PLen, r1.PSalt = 0, 0, 0
+				r2.RCode, r2.PLen, r2.PSalt = 0, 0, 0
+			}
+			for _, pt := range []string{"x", "r"} {
+				emit([]c05Ev{r1, r1, {Kind: "age", Ms: 248000}, {Kind: "sweep", Pt: pt, Inner: []c05Ev{r2}}, r2, {Kind: "age", Ms: 246000}, r2, {Kind: "age", Ms: 2000}, r2}, 0x1000)
 			}
 		}
 	}
